@@ -1198,7 +1198,22 @@ func genServe(r *c.Rng) c.Case {
 		sr.Ep = "callback"
 		nonce := "nonce-1234"
 		redirect := "https://" + authHost + "/sign_in?redirect_uri=" + url.QueryEscape(goodURI(r, sr.Domains))
-		switch r.Intn(8) {
+		switch r.Intn(11) {
+		case 8, 9, 10:
+			// what /start really puts into the state: the authenticator's own /sign_in link carrying the
+			// proxy's (redirect_uri, sig, ts) - genuine, with a junk or foreign-key signature, or stale.
+			// The callback must forward it untouched (it attaches, signs and refreshes nothing).
+			d := strings.TrimLeft(r.Pick(sr.Domains), ".")
+			inner := r.Pick([]string{goodURI(r, sr.Domains), "https://unsigned." + d + "/oauth2/callback", "https://app.attacker.net/cb"})
+			ts := strconv.FormatInt(time.Now().Unix()-[]int64{0, 30, 330, 900, 86400}[r.Intn(5)], 10)
+			sig := r.Pick([]string{signB64(clientSecret, inner+ts), "anVuaw==", signB64(otherSecret, inner+ts), "!!"})
+			nv := url.Values{}
+			nv.Set("client_id", clientID)
+			nv.Set("redirect_uri", inner)
+			nv.Set("sig", sig)
+			nv.Set("ts", ts)
+			nv.Set("state", "proxy-state")
+			redirect = "https://" + r.Pick([]string{authHost, "sso-auth." + d}) + "/sign_in?" + nv.Encode()
 		case 0, 1:
 			redirect = genURI(r, sr.Domains)
 		case 2:
@@ -1498,6 +1513,23 @@ func corpus() []c.Case {
 		mk("sign_out", "GET", "https://app.example.com/#\r\nX: y", "none", 0, clientSecret),
 		mk("sign_out", "GET", "https://evil.org:.example.com:80/", "none", 0, clientSecret),
 	} {
+		cs = append(cs, serve(sr))
+	}
+	// /callback with the state /start produces (the authenticator's /sign_in link with a nested
+	// redirect_uri / sig / ts): forwarded byte for byte, whatever the nested signature is worth
+	for _, sig := range []string{sign(clientSecret, good+nowS), "anVuaw==", ""} {
+		nv := url.Values{}
+		nv.Set("client_id", clientID)
+		nv.Set("redirect_uri", good)
+		if sig != "" {
+			nv.Set("sig", sig)
+		}
+		nv.Set("ts", nowS)
+		nonce := "nonce-cb"
+		sr := mk("callback", "GET", "", "none", 0, clientSecret)
+		sr.SigVal, sr.SigCoq, sr.TS, sr.State = "", "", "", ""
+		sr.CbStateRaw = base64.URLEncoding.EncodeToString([]byte(nonce + ":https://" + authHost + "/sign_in?" + nv.Encode()))
+		sr.CbCSRF = &nonce
 		cs = append(cs, serve(sr))
 	}
 	// the same parameter in query AND body with different values, for every method the route accepts:
